@@ -31,14 +31,17 @@ func collectRaces(m *Merged, workDir string, prefixes []string) {
 					continue
 				}
 				blocks++
-				sig, onlyLogging := raceSignature(blk)
+				sig, onlyLogging, bothDriven := raceSignature(blk)
 				if onlyLogging {
 					excluded++
 					continue
 				}
-				if parts := strings.Split(sig, " | "); len(parts) == 2 && strings.HasPrefix(parts[0], "[") && strings.HasPrefix(parts[1], "[") {
+				if parts := strings.Split(sig, " | "); len(parts) == 2 && strings.HasPrefix(parts[0], "[") && strings.HasPrefix(parts[1], "[") && !bothDriven {
 					// neither access is made by wallet code: both accessors are functions of a
-					// third-party library (or of the harness) working on that library's own memory
+					// third-party library (or of the harness) working on that library's own memory,
+					// and at least one of them was not called by wallet code. (When both library
+					// calls are made by wallet code - the wallet drives one object of the library
+					// from two goroutines without ordering them - the report is the wallet's.)
 					thirdParty[sig]++
 					continue
 				}
@@ -68,7 +71,7 @@ var frameRe = regexp.MustCompile(`(?m)^  ([^\s(][^\n(]*)\(`)
 // raceSignature returns "<frameA> | <frameB>" where frame = first repository function of each of
 // the two access stacks (falls back to the first function at all), and whether all frames of both
 // access stacks above the goroutine creation are in mass-core/logging.
-func raceSignature(blk string) (string, bool) {
+func raceSignature(blk string) (string, bool, bool) {
 	// split into sections; access sections start with "Write at", "Read at", "Previous write at", "Previous read at"
 	lines := strings.Split(blk, "\n")
 	type sec struct {
@@ -100,7 +103,7 @@ func raceSignature(blk string) (string, bool) {
 	// the memory), the first wallet frame above the harness entry (for the signature; frames below
 	// the first harness frame are ignored, race logs sometimes carry stale frames there), and
 	// whether the access happened inside the third-party logger.
-	pick := func(s sec) (string, bool) {
+	pick := func(s sec) (string, bool, bool) {
 		inLogger := false
 		for _, f := range s.frames {
 			if strings.Contains(f, "mass-core/logging") || strings.Contains(f, "sirupsen/logrus") {
@@ -128,21 +131,22 @@ func raceSignature(blk string) (string, bool) {
 				break
 			}
 		}
+		driven := first != ""
 		if first == "" {
 			first = accessor
 		}
 		if !strings.HasPrefix(accessor, "massnet.org/mass-wallet/") {
 			first = "[" + accessor + "] " + first
 		}
-		return first, inLogger
+		return first, inLogger, driven
 	}
 	if len(access) < 2 {
-		return fmt.Sprintf("unparsed:%d", len(blk)), false
+		return fmt.Sprintf("unparsed:%d", len(blk)), false, false
 	}
-	a, la := pick(access[0])
-	b, lb := pick(access[1])
+	a, la, da := pick(access[0])
+	b, lb, db := pick(access[1])
 	if a > b {
 		a, b = b, a
 	}
-	return a + " | " + b, la && lb
+	return a + " | " + b, la && lb, da && db
 }
